@@ -18,10 +18,10 @@ WinSmall == {W(0, 2), W(0, 4), W(0, 120), W(-200, 200), W(20, 100)}
 WinBig   == WinSmall \cup {W(0, 7200), W(-7200, 7200)}
 FailSmall == {F("err"), F("noid")}
 FailBig   == {F("err"), F("noid"), F("empty")}
-ScriptsSmall == TimeScripts(WinSmall, {W(0, 4), W(-200, 200)}, FailSmall, 2)
+ScriptsSmall == TimeScripts(WinSmall, WinSmall, FailBig, 2)
 ScriptsBig   == TimeScripts(WinBig, WinBig, FailBig, 3)
-StepsSmall == {{2}, {7}, {60}}
-StepsBig   == {{1}, {10}, {59}, {3600}, {7, 60}}
+StepsSmall == {{1}, {7}, {60}, {7, 60}}
+StepsBig   == {{1}, {10}, {59}, {60}, {3600}, {59, 3600}, {1, 60}}
 (* for the defect variants: one script that exercises the variant *)
 ScriptsDefect == {<<W(0, 120), F("noid"), F("err"), W(-200, 200)>>}
 NoSteps == {{}}
